@@ -47,7 +47,7 @@ SPEC = {
              "content (merges: at least one real collision of points; split round trips and updatePayloads: at least 2 "
              "points); distinct = distinct case description."),
     "shards": {"quick": 16, "thorough": 16},
-    "budget_s": {"quick": 45, "thorough": 540},
+    "budget_s": {"quick": 150, "thorough": 900},
     "min_counts": {"quick": {"evaluations": 3000, "oracle_evals": 15000, "results_judged": 5000,
                              "roundtrips_checked": 1500, "wf_checked": 5000, "rc_checked": 2000,
                              "collisions_merged": 500, "dirty_inputs": 1000, "poked_inputs": 300,
